@@ -4,7 +4,8 @@
    the model of the pinned tree ([fx = false]) is refuted by the witnesses at
    the end of each group. *)
 From Lal Require Import Common.LBytes Common.Res Net.NetChk Net.NetChkProofs
-  Net.NetRtpHeader Net.NetRtpHeaderProofs Net.NetRtcp Net.NetInterleaved Net.NetWsRead Net.NetFramingProofs.
+  Net.NetRtpHeader Net.NetRtpHeaderProofs Net.NetRtcp Net.NetInterleaved Net.NetWsRead Net.NetFramingProofs
+  Net.NetAuHeader Net.NetAuHeaderProofs Net.NetUnpack Net.NetUnpackProofs Net.NetInSess Net.NetInSessProofs.
 Open Scope N_scope.
 
 (* ---- 1. RTP header / packet / body ------------------------------------- *)
@@ -68,9 +69,55 @@ Theorem c13_ws_read_refuted : exists s, read_ws_payload false s = Panic s_ws_mak
 Proof. exact read_ws_payload_pinned_refuted. Qed.
 Print Assumptions c13_ws_read_refuted.
 
+(* ---- 4. RTP unpackers (AAC AU headers, H264/H265 STAP-A/AP/FU, raw) in a real in-session ---- *)
+(* parseAu on any body *)
+Theorem c13_no_panic_parse_au : forall b, is_panic (parse_au true b) = false.
+Proof. exact parse_au_no_panic. Qed.
+Print Assumptions c13_no_panic_parse_au.
+
+(* RtpUnpackContainer.Feed: for any unpacker whose clock rate passed InitWithSdp's
+   guard, any queue of accepted packets and any newly accepted packet: it returns,
+   and the queue invariant (position type consistent with body length) is kept *)
+Theorem c13_no_panic_unpack_feed : forall u maxsize c h raw,
+  unp_ok u -> cont_inv u c -> hdr_ok raw h -> rh_padding h <= 1 ->
+  exists c' av, cont_feed true u maxsize c h raw = Ok (c', av) /\ cont_inv u c'.
+Proof. exact cont_feed_spec. Qed.
+Print Assumptions c13_no_panic_unpack_feed.
+
+(* BaseInSession: every codec / clock rate / payload type an SDP can announce x
+   every sequence of interleaved RTP and RTCP packets: each step returns (no
+   panic, no loop out of fuel) *)
+Theorem c13_no_panic_insess : forall ac aclock apt vc vclock vpt pkts,
+  exists evs, run_insess true ac aclock apt vc vclock vpt pkts = Ok evs.
+Proof. exact run_insess_total. Qed.
+Print Assumptions c13_no_panic_insess.
+
+(* pinned tree: eleven distinct ways to kill the process through an RTSP publish / pull session *)
+Theorem c13_insess_refuted :
+  run_insess false c_pcma 8000 8 c_h264 90000 96 [(1, [128])] = Panic s_handlertcp_index /\
+  run_insess false c_pcma 8000 8 c_h264 90000 96 [(1, [128; 200])] = Panic s_sr_slice /\
+  run_insess false c_pcma 999 8 c_none 0 0 [(0, [128; 8; 0; 1; 0; 0; 0; 2; 0; 0; 0; 3; 170])] = Panic s_raw_divide /\
+  run_insess false c_none 0 0 c_h264 4294967296000 96 [(2, w_hdr ++ [101])] = Panic s_avchevc_divide /\
+  run_insess false c_none 0 0 c_h264 90000 96 [(0, [128; 0; 0; 1; 0; 0; 0; 2; 0; 0; 0; 3; 170])] = Panic s_raw_divide /\
+  run_insess false c_aac 44100 97 c_none 0 0 [(0, [128; 97; 0; 1; 0; 0; 0; 2; 0; 0; 0; 3; 170])] = Panic s_parseau_index /\
+  run_insess false c_aac 44100 97 c_none 0 0 [(0, [128; 97; 0; 1; 0; 0; 0; 2; 0; 0; 0; 3; 0; 64; 0; 8; 0; 8; 0; 8; 0; 8; 170])] = Panic s_aac_slice /\
+  run_insess false c_none 0 0 c_h264 90000 96 [(2, w_hdr ++ [28])] = Panic s_calcavc_index /\
+  run_insess false c_none 0 0 c_h265 90000 96 [(2, w_hdr ++ [98; 1])] = Panic s_calchevc_index /\
+  run_insess false c_none 0 0 c_h265 90000 96 [(2, w_hdr ++ [96])] = Panic s_avchevc_slice /\
+  run_insess false c_none 0 0 c_h264 90000 96 [(2, [160; 96; 0; 1; 0; 0; 0; 2; 0; 0; 0; 3; 101; 9])] = Panic s_body_slice.
+Proof. exact run_insess_pinned_refuted. Qed.
+Print Assumptions c13_insess_refuted.
+
 (* non-vacuity: a well-formed packet with CSRC, extension and padding is accepted *)
 Example c13_rtp_nonvacuous :
   exists h, parse_rtp_packet_body true
     [177; 96; 0; 7; 0; 0; 3; 232; 17; 34; 51; 68;  0; 0; 0; 9;  190; 222; 0; 1; 1; 2; 3; 4;  101; 136; 0; 0; 3]
     = Ok (h, [101; 136]) /\ rh_csrc h = [9] /\ rh_extensions h = [1; 2; 3; 4].
 Proof. eexists. split; [vm_compute; reflexivity|split; reflexivity]. Qed.
+
+(* non-vacuity: a fragmented H264 NAL through a real session yields one AvPacket *)
+Example c13_insess_nonvacuous :
+  run_insess true c_none 0 0 c_h264 90000 96
+    [(2, w_hdr ++ [124; 133; 1]); (2, [128; 96; 0; 2; 0; 0; 0; 2; 0; 0; 0; 3; 124; 69; 2])]
+  = Ok [EvRtp 1; EvSep; EvRtp 2; EvAv (mk_av 96 0 [0; 0; 0; 3; 101; 1; 2]); EvSep].
+Proof. vm_compute. reflexivity. Qed.
